@@ -2,9 +2,13 @@
    Only statements here; the model is Model/Result.v, the proofs are in Proofs/Result.v.
    Programs = arbitrary lists of model functions (any transformer of the detector, may depend on the
    step index, may change a container in place or give it a new buffer); schedules of any length; both
-   layouts; debug on/off; scene/data of any type; `copies` = which read-outs copy the container's buffer. *)
+   layouts; debug on/off; scene/data of any type.  `tbl` = the declarative part of the code (which read-outs copy
+   the container's buffer, which time labels a slice, which containers are exported / captured under which name);
+   the theorems are stated for every table with the stated property and instantiated, at the end, at the table
+   regenerated from the source on every run (Gen_C03.src_tables). *)
 From Coq Require Import ZArith List Bool String Lia Sorted.
 From PyxelV Require Import Model.Result Proofs.Result.
+From PyxelGen Require Import Gen_C03.
 Import ListNotations.
 Open Scope Z_scope.
 
@@ -16,35 +20,40 @@ Proof. exact assemble_labels. Qed.
 Print Assumptions C03_concat_complete.
 
 (* ---- labels: for every program and every schedule the slices are labelled start + t_i, in order, one per
-   readout -- no hypothesis at all *)
+   readout -- provided the label is taken from detector.absolute_time *)
 Theorem C03_labels :
-  forall (Scene Data : Type) (empty_scene : Scene) (scene_is_empty : Scene -> bool) (copies : ckind -> bool)
+  forall (Scene Data : Type) (empty_scene : Scene) (scene_is_empty : Scene -> bool) (tbl : tables)
          (c : config Scene Data) (d_init : det Scene Data),
-  map fst (t_buckets (exposure empty_scene scene_is_empty copies c d_init)) = map (Z.add (c_start c)) (c_times c) /\
-  List.length (t_buckets (exposure empty_scene scene_is_empty copies c d_init)) = List.length (c_times c).
-Proof. exact @labels_faithful. Qed.
+  tb_label tbl = LAbsolute ->
+  map fst (t_buckets (exposure empty_scene scene_is_empty tbl c d_init)) = map (Z.add (c_start c)) (c_times c) /\
+  List.length (t_buckets (exposure empty_scene scene_is_empty tbl c d_init)) = List.length (c_times c).
+Proof.
+  intros. rewrite <- (labels_absolute tbl H c). apply labels_faithful.
+Qed.
 Print Assumptions C03_labels.
 
 (* ---- slices: for every program, every schedule, every start time, both layouts, debug on/off: the bucket
    dataset is, slice for slice, (start + t_i, what the detector held at the end of step i) -- one slice per
-   readout, in order.  Hypotheses: every read-out that does not copy belongs to a container that gets a new
-   buffer at each reset (slices_safe; discharged for the code by C03_readouts_copy), and the dtype
-   restoration leaves the images alone (see C03_image_exact). *)
+   readout, in order.  Hypotheses on the tables: every read-out that does not copy belongs to a container that
+   gets a new buffer at each reset (slices_safe), the label is the absolute time, every variable is read out
+   of the container of the same name; on the program: the dtype restoration leaves the images alone (see
+   C03_image_exact). *)
 Theorem C03_slices :
-  forall (Scene Data : Type) (empty_scene : Scene) (scene_is_empty : Scene -> bool) (copies : ckind -> bool)
+  forall (Scene Data : Type) (empty_scene : Scene) (scene_is_empty : Scene -> bool) (tbl : tables)
          (c : config Scene Data) (d_init : det Scene Data),
-  slices_safe copies ->
+  slices_safe tbl -> tb_label tbl = LAbsolute -> exports_all tbl ->
   image_stable (map view (ends_of empty_scene c d_init)) ->
-  let t := exposure empty_scene scene_is_empty copies c d_init in
+  let t := exposure empty_scene scene_is_empty tbl c d_init in
   t_buckets t = combine (map (Z.add (c_start c)) (c_times c)) (map view (ends_of empty_scene c d_init)) /\
   List.length (t_buckets t) = List.length (c_times c) /\
   forall b, bucket_slices (t_buckets t) b =
     combine (map (Z.add (c_start c)) (c_times c))
             (map (fun d => get (view d) b) (ends_of empty_scene c d_init)).
 Proof.
-  intros. destruct (slices_faithful empty_scene scene_is_empty copies c d_init H H0) as [Hb Hl].
+  intros. destruct (slices_faithful empty_scene scene_is_empty tbl c d_init H H1 H2) as [Hb Hl].
+  rewrite (labels_absolute tbl H0 c) in Hb.
   split; [exact Hb|]. split; [exact Hl|].
-  intros b. unfold t. rewrite Hb. unfold labels. rewrite bucket_slices_combine, map_map. reflexivity.
+  intros b. unfold t. rewrite Hb. rewrite bucket_slices_combine, map_map. reflexivity.
 Qed.
 Print Assumptions C03_slices.
 
@@ -66,11 +75,11 @@ Print Assumptions C03_image_exact.
 
 (* ---- the image keeps the unsigned type the models wrote (no hypothesis on the values) *)
 Theorem C03_image_dtype :
-  forall (Scene Data : Type) (empty_scene : Scene) (scene_is_empty : Scene -> bool) (copies : ckind -> bool)
+  forall (Scene Data : Type) (empty_scene : Scene) (scene_is_empty : Scene -> bool) (tbl : tables)
          (c : config Scene Data) (d_init : det Scene Data) (t_ : dtype),
-  slices_safe copies ->
+  slices_safe tbl -> exports_all tbl ->
   Forall (fun d => image_has_dtype t_ (d_snap d)) (ends_of empty_scene c d_init) ->
-  Forall (fun ls => image_has_dtype t_ (snd ls)) (t_buckets (exposure empty_scene scene_is_empty copies c d_init)).
+  Forall (fun ls => image_has_dtype t_ (snd ls)) (t_buckets (exposure empty_scene scene_is_empty tbl c d_init)).
 Proof. exact @image_dtype_kept. Qed.
 Print Assumptions C03_image_dtype.
 
@@ -93,10 +102,10 @@ Print Assumptions C03_slices_u64.
 (* ---- both layouts carry the same values; the layout only chooses the path of the bucket node (a
    non-empty scene forces the hierarchical one) *)
 Theorem C03_layouts_agree :
-  forall (Scene Data : Type) (empty_scene : Scene) (scene_is_empty : Scene -> bool) (copies : ckind -> bool)
+  forall (Scene Data : Type) (empty_scene : Scene) (scene_is_empty : Scene -> bool) (tbl : tables)
          (c : config Scene Data) (d_init : det Scene Data),
-  let a := exposure empty_scene scene_is_empty copies (with_layout c Flat) d_init in
-  let b := exposure empty_scene scene_is_empty copies (with_layout c Hier) d_init in
+  let a := exposure empty_scene scene_is_empty tbl (with_layout c Flat) d_init in
+  let b := exposure empty_scene scene_is_empty tbl (with_layout c Hier) d_init in
   t_buckets a = t_buckets b /\ t_inter a = t_inter b /\ t_scene a = t_scene b /\
   t_data a = t_data b /\ t_bucket_path b = "/bucket"%string /\
   t_bucket_path a = (if scene_is_empty (t_scene a) then "/" else "/bucket")%string.
@@ -105,21 +114,21 @@ Print Assumptions C03_layouts_agree.
 
 (* ---- scene and processed data are what the detector holds after the last step, untouched *)
 Theorem C03_scene_data_passthrough :
-  forall (Scene Data : Type) (empty_scene : Scene) (scene_is_empty : Scene -> bool) (copies : ckind -> bool)
+  forall (Scene Data : Type) (empty_scene : Scene) (scene_is_empty : Scene -> bool) (tbl : tables)
          (c : config Scene Data) (d_init : det Scene Data),
   let final := last (ends_of empty_scene c d_init) (reset empty_scene (c_shape c) false d_init) in
-  t_scene (exposure empty_scene scene_is_empty copies c d_init) = d_scene final /\
-  t_data (exposure empty_scene scene_is_empty copies c d_init) = d_data final.
+  t_scene (exposure empty_scene scene_is_empty tbl c d_init) = d_scene final /\
+  t_data (exposure empty_scene scene_is_empty tbl c d_init) = d_data final.
 Proof. exact @scene_data_passthrough. Qed.
 Print Assumptions C03_scene_data_passthrough.
 
 (* ---- debug mode: the result without the debug nodes is the result of the run without debug, and the
    detector states do not depend on the flag *)
 Theorem C03_debug_conservative :
-  forall (Scene Data : Type) (empty_scene : Scene) (scene_is_empty : Scene -> bool) (copies : ckind -> bool)
+  forall (Scene Data : Type) (empty_scene : Scene) (scene_is_empty : Scene -> bool) (tbl : tables)
          (c : config Scene Data) (d_init : det Scene Data),
-  exposure empty_scene scene_is_empty copies (with_debug c false) d_init
-  = strip_debug (exposure empty_scene scene_is_empty copies (with_debug c true) d_init)
+  exposure empty_scene scene_is_empty tbl (with_debug c false) d_init
+  = strip_debug (exposure empty_scene scene_is_empty tbl (with_debug c true) d_init)
   /\ forall b, ends_of empty_scene (with_debug c b) d_init = ends_of empty_scene c d_init.
 Proof.
   intros. split; [apply debug_conservative|]. intros b. apply debug_does_not_touch_states.
@@ -130,13 +139,22 @@ Print Assumptions C03_debug_conservative.
    writers alike --, every schedule, every step and EVERY model, the first of a step included, the node of the
    model holds exactly the buckets this model changed (changed_by: the visible buckets of the state after the
    model whose values differ from, or that were not visible in, the state just before it), provided every
-   read-out copies the container's buffer (discharged for the code by C03_readouts_copy) *)
+   read-out copies the container's buffer (discharged for the code by C03_source_tables) *)
 Theorem C03_debug_nodes :
-  forall (Scene Data : Type) (empty_scene : Scene) (copies : ckind -> bool)
+  forall (Scene Data : Type) (empty_scene : Scene) (tbl : tables)
          (c : config Scene Data) (n i : nat) (d : det Scene Data),
-  all_copy copies = true ->
-  debug_steps empty_scene copies c i n d = ideal_steps empty_scene c i n d.
-Proof. intros. apply debug_steps_ideal. apply all_copy_every. assumption. Qed.
+  all_copy (tb_copies tbl) = true -> visible_std_b tbl = true ->
+  debug_steps empty_scene tbl c i n d = ideal_steps empty_scene c i n d.
+Proof.
+  intros. apply debug_steps_ideal.
+  - intros k. apply all_copy_every. assumption.
+  - unfold visible_std_b in H0. apply andb_prop in H0. destruct H0 as [Hp Hz].
+    apply pairs_eqb_eq in Hp. rewrite forallb_forall in Hz.
+    assert (Z : forall b, tb_skip_zero tbl b = bucket_eqb b Charge).
+    { intros b. apply eqb_prop. apply Hz. destruct b; simpl; tauto. }
+    intros s. unfold visible_t, visible. rewrite Hp. unfold id_pairs, all_buckets. simpl.
+    rewrite !Z. reflexivity.
+Qed.
 Print Assumptions C03_debug_nodes.
 
 Theorem C03_changed_by_meaning : forall before after b a,
@@ -146,13 +164,59 @@ Theorem C03_changed_by_meaning : forall before after b a,
 Proof. exact changed_by_spec. Qed.
 Print Assumptions C03_changed_by_meaning.
 
-(* ---- the hypotheses on the read-outs hold of the code: every to_xarray copies *)
-Theorem C03_readouts_copy : all_copy copies_as_coded = true /\ slices_safe copies_as_coded.
+(* ---- the hypotheses on the tables hold of the CODE: the tables regenerated from the current source tree
+   (translator/c03.py -> Gen_C03.v) say that every to_xarray copies, that the slice is labelled with
+   detector.absolute_time, that the five containers are exported and captured under their own names and that
+   only an all-zero charge is left out of a capture; and the constants of the model (dims, coordinate origins,
+   dtype conversion of each read-out, concatenation along `time` of (accumulated, step), first step taken as
+   it is, per-step order reset/run/read out/concatenate, the guarded dtype restoration of `image`, the keys of
+   the final tree with their guards, the sources of /scene /data /intermediate, the debug reference taken as a
+   deep copy before each model, np.allclose, the node path) are those of the source *)
+Theorem C03_source_tables : tables_ok src_tables = true.
+Proof. vm_compute. reflexivity. Qed.
+Print Assumptions C03_source_tables.
+
+Theorem C03_source_shape : shape_eqb src_shape shape_as_modelled = true.
+Proof. vm_compute. reflexivity. Qed.
+Print Assumptions C03_source_shape.
+
+(* the reference of the debug comparison cannot be changed by the model that runs after it was taken: it is a deep
+   copy, or every read-out copies anyway *)
+Theorem C03_debug_reference_independent :
+  sf_debug_ref_deep src_shape || all_copy (tb_copies src_tables) = true.
+Proof. vm_compute. reflexivity. Qed.
+Print Assumptions C03_debug_reference_independent.
+
+(* the paths of the model's tree are those the layout table gives *)
+Example C03_layout_table_is_the_models : forall l dbg,
+  layout_view src_shape l dbg = (@bucket_path l, @children l dbg).
+Proof. intros [|] [|]; vm_compute; reflexivity. Qed.
+
+(* ---- the main statements at the tables of the code *)
+Theorem C03_slices_as_coded :
+  forall (Scene Data : Type) (empty_scene : Scene) (scene_is_empty : Scene -> bool)
+         (c : config Scene Data) (d_init : det Scene Data),
+  image_stable (map view (ends_of empty_scene c d_init)) ->
+  let t := exposure empty_scene scene_is_empty src_tables c d_init in
+  t_buckets t = combine (map (Z.add (c_start c)) (c_times c)) (map view (ends_of empty_scene c d_init)) /\
+  List.length (t_buckets t) = List.length (c_times c) /\
+  forall b, bucket_slices (t_buckets t) b =
+    combine (map (Z.add (c_start c)) (c_times c))
+            (map (fun d => get (view d) b) (ends_of empty_scene c d_init)).
 Proof.
-  assert (H : all_copy copies_as_coded = true) by (vm_compute; reflexivity).
-  split; [exact H|]. apply every_copy_safe, all_copy_every, H.
+  intros Scene Data empty_scene scene_is_empty c d_init.
+  destruct (tables_ok_props src_tables C03_source_tables) as (_ & Hs & Hl & He & _).
+  apply C03_slices; assumption.
 Qed.
-Print Assumptions C03_readouts_copy.
+Print Assumptions C03_slices_as_coded.
+
+Theorem C03_debug_nodes_as_coded :
+  forall (Scene Data : Type) (empty_scene : Scene) (c : config Scene Data) (n i : nat) (d : det Scene Data),
+  debug_steps empty_scene src_tables c i n d = ideal_steps empty_scene c i n d.
+Proof.
+  intros. apply C03_debug_nodes; vm_compute; reflexivity.
+Qed.
+Print Assumptions C03_debug_nodes_as_coded.
 
 (* ---- ... and they are needed.  Round-1 findings kept as witnesses of what a read-out WITHOUT a copy does:
    (1) two in-place charge additions +5 then +100 in one step: both nodes show the final charge 105;
@@ -160,12 +224,14 @@ Print Assumptions C03_readouts_copy.
        change C03-m3);
    (3) a pixel array that survives the reset (non-destructive readout) and is added to in place at step 2:
        the FIRST slice of the result follows it. *)
-Definition no_copy_of (k : ckind) (k' : ckind) : bool :=
-  match k, k' with
-  | KPhoton2, KPhoton2 | KPhoton3, KPhoton3 | KCharge, KCharge | KPixel, KPixel | KSignal, KSignal
-  | KImage, KImage => false
-  | _, _ => true
-  end.
+Definition no_copy_of (k : ckind) : tables :=
+  {| tb_copies := fun k' => match k, k' with
+                            | KPhoton2, KPhoton2 | KPhoton3, KPhoton3 | KCharge, KCharge | KPixel, KPixel
+                            | KSignal, KSignal | KImage, KImage => false
+                            | _, _ => true
+                            end;
+     tb_label := LAbsolute; tb_exported := id_pairs; tb_visible := id_pairs;
+     tb_skip_zero := fun b => bucket_eqb b Charge |}.
 
 Definition wr (b : bucket) (waves : Z) (m : wmode) (ps : list Z) : action :=
   AWrite {| w_bucket := b; w_dt := F64; w_waves := waves; w_mode := m; w_per_step := ps |}.
@@ -185,19 +251,19 @@ Example C03_copy_is_needed :
   let d0 := reset [] [1; 1] false pdet0 in
   (* (1) charge *)
   node_values (debug_steps [] (no_copy_of KCharge) (alias_config Charge 0 [8] false) 0 1 d0) = [[[105]]; [[105]]] /\
-  node_values (debug_steps [] copies_as_coded (alias_config Charge 0 [8] false) 0 1 d0) = [[[5]]; [[105]]] /\
+  node_values (debug_steps [] tables_as_coded (alias_config Charge 0 [8] false) 0 1 d0) = [[[5]]; [[105]]] /\
   node_values (ideal_steps [] (alias_config Charge 0 [8] false) 0 1 d0) = [[[5]]; [[105]]] /\
   (* (2) 3-D photon *)
   node_values (debug_steps [] (no_copy_of KPhoton3) (alias_config Photon 2 [8] false) 0 1 d0)
     = [[[105; 107]]; [[105; 107]]] /\
-  node_values (debug_steps [] copies_as_coded (alias_config Photon 2 [8] false) 0 1 d0)
+  node_values (debug_steps [] tables_as_coded (alias_config Photon 2 [8] false) 0 1 d0)
     = [[[5; 6]]; [[105; 107]]] /\
   (* (3) first slice of a kept pixel array: 105 at the end of step 1, 105 + 7 + 200 at the end of step 2 *)
   map (fun ls => option_map a_vals (s_pixel (snd ls)))
       (t_buckets (exposure [] payload_is_empty (no_copy_of KPixel) (alias_config Pixel 0 [8; 16] true) pdet0))
     = [Some [312]; Some [312]] /\
   map (fun ls => option_map a_vals (s_pixel (snd ls)))
-      (t_buckets (exposure [] payload_is_empty copies_as_coded (alias_config Pixel 0 [8; 16] true) pdet0))
+      (t_buckets (exposure [] payload_is_empty tables_as_coded (alias_config Pixel 0 [8; 16] true) pdet0))
     = [Some [105]; Some [312]].
 Proof. vm_compute. repeat split; reflexivity. Qed.
 
@@ -222,7 +288,7 @@ Definition ex_config (l : layout) (dbg nd : bool) : config payload payload :=
 
 Example C03_hyps_satisfiable :
   image_uniform (map view (ends_of [] (ex_config Flat true false) pdet0)) /\
-  let t := exposure [] payload_is_empty copies_as_coded (ex_config Flat true false) pdet0 in
+  let t := exposure [] payload_is_empty tables_as_coded (ex_config Flat true false) pdet0 in
   bucket_slices (t_buckets t) Image =
     [(12, Some {| a_dt := U64; a_shape := [1; 2]; a_vals := [2 ^ 53 + 1; 2 ^ 53 + 2] |});
      (20, Some {| a_dt := U64; a_shape := [1; 2]; a_vals := [200; 201] |});
